@@ -308,40 +308,49 @@ Proof. exact gnu_count_exact. Qed.
 Print Assumptions C03_gnu_count_exact.
 
 (* ================================================================== ELFHashSection in a file image *)
-Theorem C03_sysv_section_sound : forall le is64 es rows strtab img off size stroff T hoff,
+(* [machine] is the header's e_machine.  The SysV table's entries are 32-bit words except on ELF64 Alpha and
+   s390x, where they are 64-bit (sysv_entry_bytes, Spec/C03Hash.v); the machines for which the LIVE code reads
+   wide entries (Gen/C09Hash.v, regenerated) are exactly those: *)
+Theorem C03_hash_entry_width : forall is64 machine,
+  hash_wide is64 machine = Nat.eqb (sysv_entry_bytes is64 machine) 8.
+Proof. exact hash_wide_spec. Qed.
+Print Assumptions C03_hash_entry_width.
+
+Theorem C03_sysv_section_sound : forall le is64 es rows strtab img off size stroff T hoff machine,
   symtab_ok is64 es rows = true -> names_ok strtab rows = true ->
   placed img off (encode_symtab le is64 rows) -> placed img stroff strtab ->
-  wf_sysv_hash T (names_of strtab rows) = true -> placed img hoff (encode_sysv_hash le T) ->
-  forall q v, elf_hash_section_get_symbol img (cfg le is64 off size es stroff) hoff q = Ok (Some v) ->
+  wf_sysv_hash T (names_of strtab rows) = true -> placed img hoff (encode_sysv_hash_w (sysv_entry_bytes is64 machine) le T) ->
+  forall q v, elf_hash_section_get_symbol_m machine img (cfg le is64 off size es stroff) hoff q = Ok (Some v) ->
   fst v = q /\ exists i, 1 <= i < zlen rows /\ v = vth (views strtab rows) i.
 Proof. exact sysv_section_sound. Qed.
 Print Assumptions C03_sysv_section_sound.
 
-Theorem C03_sysv_section_complete : forall le is64 es rows strtab img off size stroff T hoff,
+Theorem C03_sysv_section_complete : forall le is64 es rows strtab img off size stroff T hoff machine,
   symtab_ok is64 es rows = true -> names_ok strtab rows = true ->
   placed img off (encode_symtab le is64 rows) -> placed img stroff strtab ->
-  wf_sysv_hash T (names_of strtab rows) = true -> placed img hoff (encode_sysv_hash le T) ->
+  wf_sysv_hash T (names_of strtab rows) = true -> placed img hoff (encode_sysv_hash_w (sysv_entry_bytes is64 machine) le T) ->
   forall q, (exists i, 1 <= i < zlen rows /\ fst (vth (views strtab rows) i) = q) ->
-  exists v, elf_hash_section_get_symbol img (cfg le is64 off size es stroff) hoff q = Ok (Some v) /\ fst v = q.
+  exists v, elf_hash_section_get_symbol_m machine img (cfg le is64 off size es stroff) hoff q = Ok (Some v) /\ fst v = q.
 Proof. exact sysv_section_complete. Qed.
 Print Assumptions C03_sysv_section_complete.
 
-Theorem C03_sysv_section_absent : forall le is64 es rows strtab img off size stroff T hoff,
+Theorem C03_sysv_section_absent : forall le is64 es rows strtab img off size stroff T hoff machine,
   symtab_ok is64 es rows = true -> names_ok strtab rows = true ->
   placed img off (encode_symtab le is64 rows) -> placed img stroff strtab ->
-  wf_sysv_hash T (names_of strtab rows) = true -> placed img hoff (encode_sysv_hash le T) ->
+  wf_sysv_hash T (names_of strtab rows) = true -> placed img hoff (encode_sysv_hash_w (sysv_entry_bytes is64 machine) le T) ->
   forall q, (forall i, 1 <= i < zlen rows -> fst (vth (views strtab rows) i) <> q) ->
-  elf_hash_section_get_symbol img (cfg le is64 off size es stroff) hoff q = Ok None.
+  elf_hash_section_get_symbol_m machine img (cfg le is64 off size es stroff) hoff q = Ok None.
 Proof. exact sysv_section_absent. Qed.
 Print Assumptions C03_sysv_section_absent.
 
-Theorem C03_sysv_section_count : forall le is64 es rows strtab img off size stroff T hoff,
-  wf_sysv_hash T (names_of strtab rows) = true -> placed img hoff (encode_sysv_hash le T) ->
-  elf_hash_section_number_of_symbols img (cfg le is64 off size es stroff) hoff = Ok (zlen rows).
+Theorem C03_sysv_section_count : forall le is64 es rows strtab img off size stroff T hoff machine,
+  wf_sysv_hash T (names_of strtab rows) = true -> placed img hoff (encode_sysv_hash_w (sysv_entry_bytes is64 machine) le T) ->
+  elf_hash_section_number_of_symbols_m machine img (cfg le is64 off size es stroff) hoff = Ok (zlen rows).
 Proof. exact sysv_section_count. Qed.
 Print Assumptions C03_sysv_section_count.
 
 (* ================================================================== GNUHashSection in a file image *)
+(* no machine here: the GNU hash section has 32-bit header, bucket and chain words on every machine *)
 Theorem C03_gnu_section_sound : forall le is64 es rows strtab img off size stroff T hoff,
   symtab_ok is64 es rows = true -> names_ok strtab rows = true ->
   placed img off (encode_symtab le is64 rows) -> placed img stroff strtab ->
@@ -421,10 +430,10 @@ Example C03_ex_results :
   let c := cfg true true 22 100 25 3 in
   iter_symbols ex_img c = Ok (views ex_strtab ex_rows) /\
   get_symbol_by_name ex_img c [102; 111; 111; 66; 89] = Ok (Some [vth (views ex_strtab ex_rows) 2]) /\
-  elf_hash_section_get_symbol ex_img c 123 [102; 111; 111; 66; 89] = Ok (Some (vth (views ex_strtab ex_rows) 2)) /\
+  elf_hash_section_get_symbol_m 62 ex_img c 123 [102; 111; 111; 66; 89] = Ok (Some (vth (views ex_strtab ex_rows) 2)) /\
   gnu_hash_section_get_symbol ex_img c 158 [102; 111; 111; 66; 89] = Ok (Some (vth (views ex_strtab ex_rows) 2)) /\
   gnu_hash_section_get_symbol ex_img c 158 [102; 111; 111; 67; 88] = Ok None /\
-  elf_hash_section_number_of_symbols ex_img c 123 = Ok 4 /\
+  elf_hash_section_number_of_symbols_m 62 ex_img c 123 = Ok 4 /\
   gnu_hash_section_number_of_symbols ex_img c 158 = Ok 4.
 Proof. vm_compute. repeat split; reflexivity. Qed.
 
@@ -443,3 +452,21 @@ Example C03_ex_history :
   nth 10 (answers ex_strtab ex_rows [] calls) AStop = AByName None /\
   nth 12 (answers ex_strtab ex_rows [] calls) (ANum 0) = AStop.
 Proof. vm_compute. repeat split; reflexivity. Qed.
+
+(* the same tables in an s390x file: 64-bit SysV entries, 32-bit GNU words *)
+Definition ex_img_s390 : list Z :=
+  [127; 69; 76] ++ ex_strtab ++ [9; 9] ++ encode_symtab false true ex_rows ++ [7] ++
+  encode_sysv_hash_w 8 false ex_sysv ++ [5; 5; 5] ++ encode_gnu_hash false true ex_gnu.
+Example C03_ex_s390 :
+  let c := cfg false true 22 100 25 3 in
+  sysv_entry_bytes true EM_S390 = 8%nat /\ hash_wide true EM_S390 = true /\ hash_wide false EM_S390 = false /\
+  placed ex_img_s390 123 (encode_sysv_hash_w (sysv_entry_bytes true EM_S390) false ex_sysv) /\
+  elf_hash_section_get_symbol_m EM_S390 ex_img_s390 c 123 [102; 111; 111; 66; 89] = Ok (Some (vth (views ex_strtab ex_rows) 2)) /\
+  elf_hash_section_number_of_symbols_m EM_S390 ex_img_s390 c 123 = Ok 4 /\
+  gnu_hash_section_get_symbol ex_img_s390 c 190 [102; 111; 111; 66; 89] = Ok (Some (vth (views ex_strtab ex_rows) 2)) /\
+  gnu_hash_section_number_of_symbols ex_img_s390 c 190 = Ok 4.
+Proof.
+  cbv zeta. repeat split; try (vm_compute; reflexivity).
+  exists ([127; 69; 76] ++ ex_strtab ++ [9; 9] ++ encode_symtab false true ex_rows ++ [7]),
+         ([5; 5; 5] ++ encode_gnu_hash false true ex_gnu). split; reflexivity.
+Qed.
